@@ -24,48 +24,120 @@ import (
 // protein file holds at least one L).
 
 type cliCase struct {
-	Ali    gen.Ali `json:"ali"`
-	Cmd    string  `json:"cmd"`
-	IG     bool    `json:"ignore_gaps"`
-	IN     bool    `json:"ignore_n"`
-	Ref    int     `json:"ref"` // reference row for the mutation commands
-	Pseudo float64 `json:"pseudocount"`
-	Log    bool    `json:"log"`
-	Norm   int     `json:"normalization"`
-	Avg    bool    `json:"average"`
-	NoGaps bool    `json:"no_gaps"`
+	Ali gen.Ali `json:"ali"`
+	// More: further alignments of the same input file (multi-alignment Phylip, read with -p); only
+	// for the commands that loop over their input. Each printed block is judged against its own alignment
+	More   []gen.Ali `json:"more,omitempty"`
+	Phylip bool      `json:"phylip"`            // Phylip input (always with More)
+	F      *formula  `json:"formula,omitempty"` // a tall or long first alignment, by formula
+	Cmd    string    `json:"cmd"`
+	IG     bool      `json:"ignore_gaps"`
+	IN     bool      `json:"ignore_n"`
+	Ref    int       `json:"ref"` // reference row for the mutation commands
+	Pseudo float64   `json:"pseudocount"`
+	Log    bool      `json:"log"`
+	Norm   int       `json:"normalization"`
+	Avg    bool      `json:"average"`
+	NoGaps bool      `json:"no_gaps"`
 }
 
 var cliCmds = []string{"mutations-list", "entropy", "pssm", "diff-counts", "per-sequences", "mutations-ref", "consensus", "maxchar", "stats",
 	"char-per-sites", "gaps-unique", "mutations-unique", "char", "char-per-sequences", "alleles"}
 
+// loops: the commands that process every alignment of their input
+var loops = map[string]bool{"consensus": true, "stats": true, "char": true, "char-per-sequences": true, "char-per-sites": true,
+	"entropy": true, "pssm": true, "diff-counts": true, "alleles": true, "per-sequences": true}
+
+// detectable: the alignment written to a file must be detected with its alphabet again: proteins hold an
+// L and none of J, U, O (which no alphabet of the detection knows or which are nucleotide-only)
+func detectable(t *rapid.T, a *gen.Ali) {
+	if a.Alphabet != "aa" {
+		return
+	}
+	has := false
+	for i := range a.Rows {
+		b := []byte(a.Rows[i].Seq)
+		for k, ch := range b {
+			switch ch {
+			case 'J', 'U', 'O':
+				b[k] = 'B'
+			case 'j', 'u', 'o':
+				b[k] = 'b'
+			case 'L', 'l':
+				has = true
+			}
+		}
+		a.Rows[i].Seq = string(b)
+	}
+	if !has {
+		i := rapid.IntRange(0, len(a.Rows)-1).Draw(t, "Li")
+		j := rapid.IntRange(0, a.Length()-1).Draw(t, "Lj")
+		b := []byte(a.Rows[i].Seq)
+		b[j] = 'L'
+		a.Rows[i].Seq = string(b)
+	}
+}
+
 func genCLI(t *rapid.T) cliCase {
 	var c cliCase
 	c.Cmd = rapid.SampledFrom(cliCmds).Draw(t, "cmd")
 	mixedOK := c.Cmd == "consensus" || c.Cmd == "maxchar" || c.Cmd == "stats" || c.Cmd == "char" || c.Cmd == "char-per-sequences"
-	c.Ali, _ = genAli(t, mixedOK, 1)
+	special := false
 	switch c.Cmd {
 	case "mutations-list", "mutations-ref", "per-sequences", "mutations-unique", "gaps-unique", "diff-counts":
-		sprinkle(t, &c.Ali, nil)
+		special = true
 	}
-	// (after the special characters, so that the L making the file a protein file survives)
-	if c.Ali.Alphabet == "aa" {
-		has := false
-		for _, r := range c.Ali.Rows {
-			if strings.ContainsAny(r.Seq, "Ll") {
-				has = true
+	one := func(alpha string) gen.Ali {
+		var a gen.Ali
+		for {
+			a, _ = genAli(t, mixedOK, 1)
+			if alpha == "" || a.Alphabet == alpha {
+				break
 			}
 		}
-		if !has {
-			i := rapid.IntRange(0, len(c.Ali.Rows)-1).Draw(t, "Li")
-			j := rapid.IntRange(0, c.Ali.Length()-1).Draw(t, "Lj")
-			b := []byte(c.Ali.Rows[i].Seq)
-			b[j] = 'L'
-			c.Ali.Rows[i].Seq = string(b)
+		if special {
+			sprinkle(t, &a, nil)
+		}
+		// (after the special characters, so that the L making the file a protein file survives)
+		detectable(t, &a)
+		return a
+	}
+	if f := genMaybeLarge(t, mixedOK); f != nil {
+		if f.Alphabet == "aa" {
+			// the first column gets an L in every row: the file is detected as protein
+			if f.Kind == "tall" {
+				f.Cols[0].Runs = []frun{{"L", f.Rows}}
+			} else {
+				f.Cols[0].S = strings.Repeat("L", f.Rows)
+			}
+		}
+		c.F = f
+		c.Ali = gen.Ali{Alphabet: f.Alphabet}
+	} else {
+		c.Ali = one("")
+		if loops[c.Cmd] && rapid.IntRange(0, 2).Draw(t, "multi") != 1 {
+			// a Phylip file of 2-3 alignments of the same alphabet, of different sizes and contents
+			c.Phylip = true
+			k := rapid.IntRange(1, 2).Draw(t, "more")
+			for i := 0; i < k; i++ {
+				c.More = append(c.More, one(c.Ali.Alphabet))
+			}
+		} else {
+			c.Phylip = rapid.IntRange(0, 3).Draw(t, "phylip1") == 2
 		}
 	}
 	c.IG, c.IN = rapid.Bool().Draw(t, "ig"), rapid.Bool().Draw(t, "in")
-	c.Ref = rapid.IntRange(0, len(c.Ali.Rows)-1).Draw(t, "ref")
+	minRows := len(c.Ali.Rows)
+	if c.F != nil {
+		minRows = c.F.Rows
+	}
+	for _, m := range c.More {
+		if len(m.Rows) < minRows {
+			minRows = len(m.Rows)
+		}
+	}
+	// the reference name exists in every alignment of the file; its residues differ between them
+	c.Ref = rapid.IntRange(0, minRows-1).Draw(t, "ref")
 	c.Pseudo = rapid.SampledFrom([]float64{0, 0.5, 1}).Draw(t, "pseudo")
 	c.Log = rapid.Bool().Draw(t, "log")
 	c.Norm = rapid.SampledFrom([]int{1, 0, 9}).Draw(t, "norm")
@@ -74,10 +146,53 @@ func genCLI(t *rapid.T) cliCase {
 	return c
 }
 
+// phylip writes the alignments as a sequential multi-alignment Phylip file
+func phylip(alis []gen.Ali) string {
+	var sb strings.Builder
+	for _, a := range alis {
+		fmt.Fprintf(&sb, " %d %d\n", len(a.Rows), a.Length())
+		for _, r := range a.Rows {
+			sb.WriteString(r.Name + "  " + r.Seq + "\n")
+		}
+	}
+	return sb.String()
+}
+
+// blockLines: number of output lines one alignment gives
+func blockLines(c cliCase, a gen.Ali) int {
+	n, l := len(a.Rows), a.Length()
+	switch c.Cmd {
+	case "stats":
+		return 6 + len(foldedCounts(a))
+	case "char":
+		return 1 + len(foldedCounts(a))
+	case "char-per-sequences", "per-sequences":
+		return 1 + n
+	case "char-per-sites", "pssm", "maxchar":
+		return 1 + l
+	case "entropy":
+		if c.Avg {
+			return 1
+		}
+		return l
+	case "diff-counts", "gaps-unique", "mutations-unique", "mutations-ref":
+		return n
+	case "mutations-list":
+		return n - 1
+	case "alleles":
+		return 1
+	}
+	return 0
+}
+
 // table splits a tab separated output into lines of fields
 func table(out string) [][]string {
 	var t [][]string
-	for _, line := range strings.Split(strings.TrimRight(out, "\n"), "\n") {
+	lines := strings.Split(out, "\n")
+	if len(lines) > 0 && lines[len(lines)-1] == "" {
+		lines = lines[:len(lines)-1]
+	}
+	for _, line := range lines {
 		t = append(t, strings.Split(line, "\t"))
 	}
 	return t
@@ -128,9 +243,15 @@ func TestCLI(t *testing.T) {
 	}
 	dir := cli.TempDir("c14cli")
 	pbt.Run(t, genCLI, func(c cliCase) (o pbt.Outcome, err error) {
-		a := c.Ali
-		n, l := len(a.Rows), a.Length()
-		in := cli.TempFile(dir, ".fa", cli.Fasta(a.Rows))
+		alis := append([]gen.Ali{resolve(c.Ali, c.F)}, c.More...)
+		sizeClass(&o, c.F)
+		a := alis[0]
+		var in string
+		if c.Phylip {
+			in = cli.TempFile(dir, ".phy", phylip(alis))
+		} else {
+			in = cli.TempFile(dir, ".fa", cli.Fasta(a.Rows))
+		}
 		defer os.Remove(in)
 		var args []string
 		flags := func() {
@@ -142,7 +263,6 @@ func TestCLI(t *testing.T) {
 			}
 		}
 		refName := a.Rows[c.Ref].Name
-		ref := a.Rows[c.Ref].Seq
 		wantErr := false
 		switch c.Cmd {
 		case "consensus":
@@ -191,11 +311,21 @@ func TestCLI(t *testing.T) {
 		case "per-sequences":
 			args = []string{"stats", "--per-sequences", "--ref-sequence", refName, "-i", in}
 		}
+		if c.Phylip {
+			args = append(args, "-p")
+			if c.Cmd == "consensus" {
+				args = append(args, "--one-line", "--no-block")
+			}
+		}
 		r := cli.Run("", args...)
 		o.Class("cmd=%s", c.Cmd)
+		o.Class("alignments-in-file=%d", len(alis))
+		if c.Phylip {
+			o.Class("input=phylip")
+		}
 		o.Class("alphabet=%s", a.Alphabet)
 		fail := func(format string, x ...interface{}) (pbt.Outcome, error) {
-			return o, fmt.Errorf("goalign %v: %s\n input : %s\n stdout: %q\n stderr: %q", args[:len(args)], fmt.Sprintf(format, x...), gen.Show(a.Rows), trunc(r.Stdout), trunc(r.Stderr))
+			return o, fmt.Errorf("goalign %v: %s\n input : %s\n stdout: %q\n stderr: %q", args[:len(args)], fmt.Sprintf(format, x...), trunc(gen.Show(allRows(alis))), trunc(r.Stdout), trunc(r.Stderr))
 		}
 		if wantErr {
 			if r.Exit == 0 {
@@ -204,394 +334,451 @@ func TestCLI(t *testing.T) {
 			o.Class("error-expected")
 			return o, nil
 		}
-		if r.Exit != 0 {
-			if a.Alphabet == "nt" && (c.Cmd == "mutations-ref" || c.Cmd == "mutations-list" || c.Cmd == "per-sequences") {
-				for _, row := range a.Rows {
-					if strings.Contains(row.Seq, "?") {
-						// '?' has no nucleotide code: a reported error is an admissible answer
-						o.Ambiguous++
-						o.Class("nucleotide-'?':error-accepted")
-						return o, nil
+		// '?' has no nucleotide code: the reference comparisons report an error; that answer is accepted
+		// and nothing else is judged then. (With several alignments in the file `stats --per-sequences`
+		// logs the error, goes on with the next alignment and ends with status 0 and a truncated block:
+		// FINDINGS.md, reported, not judged here because the input itself is outside what the documentation fixes.)
+		if a.Alphabet == "nt" && (c.Cmd == "mutations-ref" || c.Cmd == "mutations-list" || c.Cmd == "per-sequences") &&
+			(r.Exit != 0 || strings.Contains(r.Stderr, "[Error]")) {
+			for _, row := range allRows(alis) {
+				if strings.Contains(row.Seq, "?") {
+					o.Ambiguous++
+					o.Class("nucleotide-'?':error-accepted")
+					if r.Exit == 0 {
+						o.Class("nucleotide-'?':error-logged-but-status-0")
 					}
+					return o, nil
 				}
 			}
+		}
+		if r.Exit != 0 {
 			return fail("exit %d on a valid request", r.Exit)
 		}
-		tb := table(r.Stdout)
-		w := wildOf(a.Alphabet)
-		switch c.Cmd {
-		case "consensus":
-			rows, e := cli.ParseFasta(r.Stdout)
-			if e != nil || len(rows) != 1 || len(rows[0].Seq) != l {
-				return fail("one sequence of length %d expected", l)
-			}
-			for j := 0; j < l; j++ {
-				s := majoritySite(col(a, j), a.Alphabet, c.IG, c.IN)
-				if !s.valid[fold(rows[0].Seq[j])] {
-					return fail("site %d (%q): %q is not a most frequent character (admissible %s)", j, col(a, j), rows[0].Seq[j], keys(s.valid))
+		all := table(r.Stdout)
+		var cons []string // consensus sequences, one per alignment
+		if c.Cmd == "consensus" {
+			if c.Phylip {
+				// blocks " 1 L" / "consensus  SEQ"
+				if len(all)%2 != 0 {
+					return fail("odd number of lines in the Phylip output")
 				}
-				if s.tie {
-					o.NonTrivial = true
-				}
-			}
-		case "maxchar":
-			if len(tb) != l+1 || strings.Join(tb[0], " ") != "site char nb" {
-				return fail("header and %d lines expected", l)
-			}
-			for j := 0; j < l; j++ {
-				f := tb[j+1]
-				s := majoritySite(col(a, j), a.Alphabet, c.IG, c.IN)
-				if len(f) != 3 || f[0] != strconv.Itoa(j) || len(f[1]) != 1 || !s.valid[fold(f[1][0])] {
-					return fail("line %v: site %d (%q) admits %s", f, j, col(a, j), keys(s.valid))
-				}
-				if nb, _ := strconv.Atoi(f[2]); !s.open && !inInts(s.occur, nb) {
-					return fail("line %v: site %d (%q) occurrence %v expected", f, j, col(a, j), s.occur)
-				}
-				if s.tie {
-					o.NonTrivial = true
-				}
-			}
-		case "stats", "char":
-			want := foldedCounts(a)
-			ks := sortedKeys(want)
-			i := 0
-			if c.Cmd == "stats" {
-				if len(tb) < 5 || strings.Join(tb[0], "=") != "length="+strconv.Itoa(l) || strings.Join(tb[1], "=") != "nseqs="+strconv.Itoa(n) {
-					return fail("length/nseqs lines wrong")
-				}
-				if len(tb[2]) != 2 || tb[2][0] != "avgalleles" || len(tb[3]) != 2 || tb[3][0] != "variable sites" {
-					return fail("avgalleles / variable sites lines missing")
-				}
-				// upper-case input only: these two are case sensitive in the code
-				if !isMixed(a) {
-					lo, hi, rA, rB, rC := variableAndAlleles(a)
-					if nv, _ := strconv.Atoi(tb[3][1]); nv < lo || nv > hi {
-						return fail("variable sites %s, counted between %d and %d", tb[3][1], lo, hi)
+				for k := 0; k+1 < len(all); k += 2 {
+					f := strings.Fields(strings.Join(all[k+1], "\t"))
+					if hd := strings.Fields(strings.Join(all[k], "\t")); len(hd) != 2 || hd[0] != "1" || len(f) != 2 {
+						return fail("Phylip block %d unreadable", k/2)
 					}
-					av, _ := parseF(tb[2][1])
-					if !closeTo(av, rA, 0.00005) && !closeTo(av, rB, 0.00005) && !closeTo(av, rC, 0.00005) {
-						return fail("avgalleles %s, counted %v", tb[2][1], rA)
+					cons = append(cons, f[1])
+				}
+			} else {
+				rows, e := cli.ParseFasta(r.Stdout)
+				if e != nil {
+					return fail("unreadable FASTA")
+				}
+				for _, row := range rows {
+					cons = append(cons, row.Seq)
+				}
+			}
+			if len(cons) != len(alis) {
+				return fail("%d consensus sequences for %d alignments", len(cons), len(alis))
+			}
+			all = nil
+		}
+		if c.Cmd == "entropy" {
+			want := "Alignment Site Entropy"
+			if c.Avg {
+				want = "Alignment AvgEntropy"
+			}
+			if len(all) == 0 || strings.Join(all[0], " ") != want {
+				return fail("header %q expected", want)
+			}
+			all = all[1:]
+		}
+		pos := 0
+		for ai, a := range alis {
+			n, l := len(a.Rows), a.Length()
+			ref := a.Rows[c.Ref].Seq
+			size := blockLines(c, a)
+			if pos+size > len(all) {
+				return fail("alignment %d of the file: %d lines expected from line %d on, the output has %d", ai, size, pos, len(all))
+			}
+			tb := all[pos : pos+size]
+			pos += size
+			w := wildOf(a.Alphabet)
+			switch c.Cmd {
+			case "consensus":
+				rows := []gen.Row{{Name: "consensus", Seq: cons[ai]}}
+				if len(rows[0].Seq) != l {
+					return fail("alignment %d: a consensus of length %d expected, got %q", ai, l, trunc(cons[ai]))
+				}
+				for j := 0; j < l; j++ {
+					s := majoritySite(col(a, j), a.Alphabet, c.IG, c.IN)
+					if !s.valid[fold(rows[0].Seq[j])] {
+						return fail("site %d (%q): %q is not a most frequent character (admissible %s)", j, col(a, j), rows[0].Seq[j], keys(s.valid))
+					}
+					if s.tie {
+						o.NonTrivial = true
 					}
 				}
-				i = 4
-				last := tb[len(tb)-1]
-				wantAlpha := "nucleotide"
-				if a.Alphabet == "aa" {
-					wantAlpha = "protein"
+			case "maxchar":
+				if len(tb) != l+1 || strings.Join(tb[0], " ") != "site char nb" {
+					return fail("header and %d lines expected", l)
 				}
-				if len(last) != 2 || last[0] != "alphabet" || last[1] != wantAlpha {
-					return fail("alphabet line %v, expected %s", last, wantAlpha)
+				for j := 0; j < l; j++ {
+					f := tb[j+1]
+					s := majoritySite(col(a, j), a.Alphabet, c.IG, c.IN)
+					if len(f) != 3 || f[0] != strconv.Itoa(j) || len(f[1]) != 1 || !s.valid[fold(f[1][0])] {
+						return fail("line %v: site %d (%q) admits %s", f, j, col(a, j), keys(s.valid))
+					}
+					if nb, _ := strconv.Atoi(f[2]); !s.open && !inInts(s.occur, nb) {
+						return fail("line %v: site %d (%q) occurrence %v expected", f, j, col(a, j), s.occur)
+					}
+					if s.tie {
+						o.NonTrivial = true
+					}
 				}
-				tb = tb[:len(tb)-1]
-			}
-			if i >= len(tb) || strings.Join(tb[i], " ") != "char nb freq" || len(tb)-i-1 != len(ks) {
-				return fail("character table: header and %d lines expected", len(ks))
-			}
-			for k, ch := range ks {
-				f := tb[i+1+k]
-				nb, _ := strconv.Atoi(f[1])
-				fr, _ := parseF(f[2])
-				if len(f) != 3 || f[0] != ch || nb != want[ch[0]] || !closeTo(fr, float64(want[ch[0]])/float64(n*l), 0.0000005) {
-					return fail("character line %v: %s occurs %d times in %d cells", f, ch, want[ch[0]], n*l)
+			case "stats", "char":
+				want := foldedCounts(a)
+				ks := sortedKeys(want)
+				i := 0
+				if c.Cmd == "stats" {
+					if len(tb) < 5 || strings.Join(tb[0], "=") != "length="+strconv.Itoa(l) || strings.Join(tb[1], "=") != "nseqs="+strconv.Itoa(n) {
+						return fail("length/nseqs lines wrong")
+					}
+					if len(tb[2]) != 2 || tb[2][0] != "avgalleles" || len(tb[3]) != 2 || tb[3][0] != "variable sites" {
+						return fail("avgalleles / variable sites lines missing")
+					}
+					// upper-case input only: these two are case sensitive in the code
+					if !isMixed(a) {
+						lo, hi, rA, rB, rC := variableAndAlleles(a)
+						if nv, _ := strconv.Atoi(tb[3][1]); nv < lo || nv > hi {
+							return fail("variable sites %s, counted between %d and %d", tb[3][1], lo, hi)
+						}
+						av, _ := parseF(tb[2][1])
+						if !closeTo(av, rA, 0.00005) && !closeTo(av, rB, 0.00005) && !closeTo(av, rC, 0.00005) {
+							return fail("avgalleles %s, counted %v", tb[2][1], rA)
+						}
+					}
+					i = 4
+					last := tb[len(tb)-1]
+					wantAlpha := "nucleotide"
+					if a.Alphabet == "aa" {
+						wantAlpha = "protein"
+					}
+					if len(last) != 2 || last[0] != "alphabet" || last[1] != wantAlpha {
+						return fail("alphabet line %v, expected %s", last, wantAlpha)
+					}
+					tb = tb[:len(tb)-1]
 				}
-			}
-			o.NonTrivial = len(ks) > 1
-		case "char-per-sequences":
-			want := foldedCounts(a)
-			ks := sortedKeys(want)
-			if len(tb) != n+1 || strings.Join(tb[0], "\t") != "seq\t"+strings.Join(ks, "\t") {
-				return fail("header seq + %v and %d lines expected", ks, n)
-			}
-			for i2, row := range a.Rows {
-				f := tb[i2+1]
-				wc := naiveCounts([]byte(row.Seq))
-				if len(f) != len(ks)+1 || f[0] != row.Name {
-					return fail("line %v", f)
+				if i >= len(tb) || strings.Join(tb[i], " ") != "char nb freq" || len(tb)-i-1 != len(ks) {
+					return fail("character table: header and %d lines expected", len(ks))
 				}
 				for k, ch := range ks {
-					if nb, _ := strconv.Atoi(f[k+1]); nb != wc[ch[0]] {
-						return fail("line %v: %s occurs %d times in %q", f, ch, wc[ch[0]], row.Seq)
+					f := tb[i+1+k]
+					nb, _ := strconv.Atoi(f[1])
+					fr, _ := parseF(f[2])
+					if len(f) != 3 || f[0] != ch || nb != want[ch[0]] || !closeTo(fr, float64(want[ch[0]])/float64(n*l), 0.0000005) {
+						return fail("character line %v: %s occurs %d times in %d cells", f, ch, want[ch[0]], n*l)
 					}
 				}
-			}
-			o.NonTrivial = len(ks) > 1
-		case "char-per-sites":
-			if len(tb) != l+1 || tb[0][0] != "site" {
-				return fail("header and %d lines expected", l)
-			}
-			hdr := tb[0][1:]
-			want := foldedCounts(a)
-			if len(hdr) != len(want) {
-				return fail("header %v, the alignment holds %v", hdr, sortedKeys(want))
-			}
-			for j := 0; j < l; j++ {
-				f := tb[j+1]
-				wc := naiveCounts(col(a, j))
-				if len(f) != len(hdr)+1 || f[0] != strconv.Itoa(j) {
-					return fail("line %v", f)
+				o.NonTrivial = o.NonTrivial || len(ks) > 1
+			case "char-per-sequences":
+				want := foldedCounts(a)
+				ks := sortedKeys(want)
+				if len(tb) != n+1 || strings.Join(tb[0], "\t") != "seq\t"+strings.Join(ks, "\t") {
+					return fail("header seq + %v and %d lines expected", ks, n)
 				}
-				for k, ch := range hdr {
-					if nb, _ := strconv.Atoi(f[k+1]); len(ch) != 1 || nb != wc[ch[0]] {
-						return fail("line %v: %s occurs %d times in column %q", f, ch, wc[ch[0]], col(a, j))
+				for i2, row := range a.Rows {
+					f := tb[i2+1]
+					wc := naiveCounts([]byte(row.Seq))
+					if len(f) != len(ks)+1 || f[0] != row.Name {
+						return fail("line %v", f)
+					}
+					for k, ch := range ks {
+						if nb, _ := strconv.Atoi(f[k+1]); nb != wc[ch[0]] {
+							return fail("line %v: %s occurs %d times in %q", f, ch, wc[ch[0]], row.Seq)
+						}
 					}
 				}
-			}
-			o.NonTrivial = len(hdr) > 1
-		case "gaps-unique", "mutations-unique":
-			gu, mu, muO := make([]int, n), make([]int, n), make([]int, n)
-			for j := 0; j < l; j++ {
-				cells := col(a, j)
-				cnt := map[uint8]int{}
-				for _, ch := range cells {
-					cnt[ch]++
+				o.NonTrivial = o.NonTrivial || len(ks) > 1
+			case "char-per-sites":
+				if len(tb) != l+1 || tb[0][0] != "site" {
+					return fail("header and %d lines expected", l)
 				}
-				for i2, ch := range cells {
-					if cnt[ch] != 1 {
+				hdr := tb[0][1:]
+				want := foldedCounts(a)
+				if len(hdr) != len(want) {
+					return fail("header %v, the alignment holds %v", hdr, sortedKeys(want))
+				}
+				for j := 0; j < l; j++ {
+					f := tb[j+1]
+					wc := naiveCounts(col(a, j))
+					if len(f) != len(hdr)+1 || f[0] != strconv.Itoa(j) {
+						return fail("line %v", f)
+					}
+					for k, ch := range hdr {
+						if nb, _ := strconv.Atoi(f[k+1]); len(ch) != 1 || nb != wc[ch[0]] {
+							return fail("line %v: %s occurs %d times in column %q", f, ch, wc[ch[0]], col(a, j))
+						}
+					}
+				}
+				o.NonTrivial = o.NonTrivial || len(hdr) > 1
+			case "gaps-unique", "mutations-unique":
+				gu, mu, muO := make([]int, n), make([]int, n), make([]int, n)
+				for j := 0; j < l; j++ {
+					cells := col(a, j)
+					cnt := map[uint8]int{}
+					for _, ch := range cells {
+						cnt[ch]++
+					}
+					for i2, ch := range cells {
+						if cnt[ch] != 1 {
+							continue
+						}
+						if ch == '-' {
+							gu[i2]++
+						} else if isSpecial(a.Alphabet, ch) {
+							muO[i2]++ // '*', '.', '?', X in nucleotides: counted or not
+						} else if ch != w {
+							mu[i2]++
+						}
+					}
+				}
+				want, opt := gu, make([]int, n)
+				if c.Cmd == "mutations-unique" {
+					want, opt = mu, muO
+				}
+				if len(tb) != n {
+					return fail("%d lines expected", n)
+				}
+				for i2, row := range a.Rows {
+					if nb, _ := strconv.Atoi(tb[i2][len(tb[i2])-1]); len(tb[i2]) != 2 || tb[i2][0] != row.Name || nb < want[i2] || nb > want[i2]+opt[i2] {
+						return fail("line %v: %d expected for %s", tb[i2], want[i2], row.Name)
+					}
+					o.Ambiguous += opt[i2]
+					if want[i2] > 0 {
+						o.NonTrivial = true
+					}
+				}
+			case "mutations-ref":
+				if len(tb) != n {
+					return fail("%d lines expected", n)
+				}
+				for i2, row := range a.Rows {
+					nb, _ := strconv.Atoi(tb[i2][len(tb[i2])-1])
+					okN, n1 := numAdmissible(a.Alphabet, row.Seq, ref, nb)
+					if len(tb[i2]) != 2 || tb[i2][0] != row.Name || !okN {
+						return fail("line %v: %d mutations of %q against %q", tb[i2], n1, row.Seq, ref)
+					}
+					if n1 > 0 {
+						o.NonTrivial = true
+					}
+				}
+			case "mutations-list":
+				if n == 1 {
+					break // no line: the only sequence is the reference (the total is checked below)
+				}
+				if len(tb) != n-1 {
+					return fail("%d lines expected", n-1)
+				}
+				k := 0
+				for i2, row := range a.Rows {
+					if i2 == c.Ref {
 						continue
 					}
-					if ch == '-' {
-						gu[i2]++
-					} else if isSpecial(a.Alphabet, ch) {
-						muO[i2]++ // '*', '.', '?', X in nucleotides: counted or not
-					} else if ch != w {
-						mu[i2]++
+					_, _, l1 := naiveMutations(a.Alphabet, row.Seq, ref, false, nil)
+					got := ""
+					if len(tb[k]) > 1 {
+						got = tb[k][1]
 					}
+					okL, _ := listAdmissibleBy(a.Alphabet, row.Seq, ref, func(l []mut) bool { return showMuts(l) == got })
+					if tb[k][0] != row.Name || len(tb[k]) > 2 || !okL {
+						return fail("line %v: %q against %q gives [%s]", tb[k], row.Seq, ref, showMuts(l1))
+					}
+					if len(l1) > 0 {
+						o.NonTrivial = true
+					}
+					k++
 				}
-			}
-			want, opt := gu, make([]int, n)
-			if c.Cmd == "mutations-unique" {
-				want, opt = mu, muO
-			}
-			if len(tb) != n {
-				return fail("%d lines expected", n)
-			}
-			for i2, row := range a.Rows {
-				if nb, _ := strconv.Atoi(tb[i2][len(tb[i2])-1]); len(tb[i2]) != 2 || tb[i2][0] != row.Name || nb < want[i2] || nb > want[i2]+opt[i2] {
-					return fail("line %v: %d expected for %s", tb[i2], want[i2], row.Name)
-				}
-				o.Ambiguous += opt[i2]
-				if want[i2] > 0 {
-					o.NonTrivial = true
-				}
-			}
-		case "mutations-ref":
-			if len(tb) != n {
-				return fail("%d lines expected", n)
-			}
-			for i2, row := range a.Rows {
-				nb, _ := strconv.Atoi(tb[i2][len(tb[i2])-1])
-				okN, n1 := numAdmissible(a.Alphabet, row.Seq, ref, nb)
-				if len(tb[i2]) != 2 || tb[i2][0] != row.Name || !okN {
-					return fail("line %v: %d mutations of %q against %q", tb[i2], n1, row.Seq, ref)
-				}
-				if n1 > 0 {
-					o.NonTrivial = true
-				}
-			}
-		case "mutations-list":
-			if n == 1 {
-				if strings.TrimSpace(r.Stdout) != "" {
-					return fail("no line expected: the only sequence is the reference")
-				}
-				break
-			}
-			if len(tb) != n-1 {
-				return fail("%d lines expected", n-1)
-			}
-			k := 0
-			for i2, row := range a.Rows {
-				if i2 == c.Ref {
-					continue
-				}
-				_, _, l1 := naiveMutations(a.Alphabet, row.Seq, ref, false, nil)
-				got := ""
-				if len(tb[k]) > 1 {
-					got = tb[k][1]
-				}
-				okL, _ := listAdmissibleBy(a.Alphabet, row.Seq, ref, func(l []mut) bool { return showMuts(l) == got })
-				if tb[k][0] != row.Name || len(tb[k]) > 2 || !okL {
-					return fail("line %v: %q against %q gives [%s]", tb[k], row.Seq, ref, showMuts(l1))
-				}
-				if len(l1) > 0 {
-					o.NonTrivial = true
-				}
-				k++
-			}
-		case "entropy":
-			sum, cnt := 0.0, 0
-			if c.Avg {
-				if len(tb) != 2 {
-					return fail("header and one line expected")
-				}
-			} else if len(tb) != l+1 {
-				return fail("header and %d lines expected", l)
-			}
-			for j := 0; j < l; j++ {
-				h := naiveEntropy(col(a, j), c.IG)
-				if !math.IsNaN(h) {
-					sum += h
-					cnt++
-				}
-				if h > 0 {
-					o.NonTrivial = true
+			case "entropy":
+				sum, cnt := 0.0, 0
+				for j := 0; j < l; j++ {
+					h := naiveEntropy(col(a, j), c.IG)
+					if !math.IsNaN(h) {
+						sum += h
+						cnt++
+					}
+					if h > 0 {
+						o.NonTrivial = true
+					}
+					if c.Avg {
+						continue
+					}
+					f := tb[j]
+					got, e := parseF(f[len(f)-1])
+					if len(f) != 3 || f[0] != strconv.Itoa(ai) || f[1] != strconv.Itoa(j) || e != nil || !closeTo(got, h, 0.0005) {
+						return fail("alignment %d line %v: entropy of %q is %v", ai, f, col(a, j), h)
+					}
 				}
 				if c.Avg {
-					continue
+					got, e := parseF(tb[0][len(tb[0])-1])
+					if len(tb[0]) != 2 || tb[0][0] != strconv.Itoa(ai) || e != nil || !closeTo(got, sum/float64(cnt), 0.0005) {
+						return fail("alignment %d: average entropy %v, computed %v", ai, tb[0], sum/float64(cnt))
+					}
 				}
-				f := tb[j+1]
-				got, e := parseF(f[len(f)-1])
-				if len(f) != 3 || f[0] != "0" || f[1] != strconv.Itoa(j) || e != nil || !closeTo(got, h, 0.0005) {
-					return fail("line %v: entropy of %q is %v", f, col(a, j), h)
-				}
-			}
-			if c.Avg {
-				got, e := parseF(tb[1][len(tb[1])-1])
-				if len(tb[1]) != 2 || e != nil || !closeTo(got, sum/float64(cnt), 0.0005) {
-					return fail("average entropy %v, computed %v", tb[1], sum/float64(cnt))
-				}
-			}
-		case "pssm":
-			chars := alphabetChars(a.Alphabet)
-			if len(tb) != l+1 || len(tb[0]) != len(chars)+1 {
-				return fail("header with %d characters and %d lines expected", len(chars), l)
-			}
-			for k := 0; k < len(chars); k++ {
-				if tb[0][k+1] != string(chars[k]) {
-					return fail("header %v", tb[0])
-				}
-			}
-			for j := 0; j < l; j++ {
-				f := tb[j+1]
-				if len(f) != len(chars)+1 || f[0] != strconv.Itoa(j+1) {
-					return fail("line %v", f)
+			case "pssm":
+				chars := alphabetChars(a.Alphabet)
+				if len(tb) != l+1 || len(tb[0]) != len(chars)+1 {
+					return fail("header with %d characters and %d lines expected", len(chars), l)
 				}
 				for k := 0; k < len(chars); k++ {
-					cnt := 0
-					for _, ch := range col(a, j) {
-						if fold(ch) == chars[k] {
-							cnt++
-						}
-					}
-					want := float64(cnt) + c.Pseudo
-					if c.Norm == 1 {
-						want /= float64(n) + float64(len(chars))*c.Pseudo
-					}
-					if c.Log {
-						want = math.Log2(want)
-					}
-					got, e := parseF(f[k+1])
-					if e != nil || !closeTo(got, want, 0.0005) {
-						return fail("line %v, %c: %v expected", f, chars[k], want)
+					if tb[0][k+1] != string(chars[k]) {
+						return fail("header %v", tb[0])
 					}
 				}
-			}
-			o.NonTrivial = n > 1
-		case "diff-counts":
-			if n == 1 {
-				break
-			}
-			union := map[string]bool{}
-			per := make([]map[string]int, n)
-			for i2 := 1; i2 < n; i2++ {
-				per[i2] = map[string]int{}
-				for k := 0; k < l; k++ {
-					x, y := a.Rows[0].Seq[k], a.Rows[i2].Seq[k]
-					if x != y && !(c.NoGaps && (x == '-' || y == '-')) {
-						key := string([]byte{x, y})
-						per[i2][key]++
-						union[key] = true
-					}
-				}
-			}
-			var ks []string
-			for k := range union {
-				ks = append(ks, k)
-			}
-			sort.Strings(ks)
-			if len(tb) != n {
-				return fail("header and %d lines expected", n-1)
-			}
-			hdr := tb[0]
-			if len(hdr) > 0 && hdr[0] == "" {
-				hdr = hdr[1:]
-			}
-			if strings.Join(hdr, " ") != strings.Join(ks, " ") {
-				return fail("header %v, the differences are %v", hdr, ks)
-			}
-			for i2 := 1; i2 < n; i2++ {
-				f := tb[i2]
-				if len(f) != len(ks)+1 || f[0] != a.Rows[i2].Name {
-					return fail("line %v", f)
-				}
-				for k, key := range ks {
-					if nb, _ := strconv.Atoi(f[k+1]); nb != per[i2][key] {
-						return fail("line %v: %s occurs %d times", f, key, per[i2][key])
-					}
-				}
-			}
-			o.NonTrivial = len(ks) > 0
-		case "alleles":
-			_, _, rA, rB, rC := variableAndAlleles(a)
-			got, e := parseF(strings.TrimSpace(r.Stdout))
-			if e != nil || (!eqF(got, rA, 1e-9) && !eqF(got, rB, 1e-9) && !eqF(got, rC, 1e-9)) {
-				return fail("average number of alleles %v expected", rA)
-			}
-			o.NonTrivial = rA > 1
-		case "per-sequences":
-			if len(tb) != n+1 {
-				return fail("header and %d lines expected", n)
-			}
-			idx := map[string]int{}
-			for k, h := range tb[0] {
-				idx[h] = k
-			}
-			for _, h := range []string{"sequence", "gaps", "gapsuniques", "mutuniques", "mutref", "length"} {
-				if _, ok := idx[h]; !ok {
-					return fail("column %s missing in %v", h, tb[0])
-				}
-			}
-			for i2, row := range a.Rows {
-				f := tb[i2+1]
-				if len(f) != len(tb[0]) || f[idx["sequence"]] != row.Name {
-					return fail("line %v", f)
-				}
-				gu, mu, muO := 0, 0, 0
 				for j := 0; j < l; j++ {
-					cnt := 0
-					for _, ch := range col(a, j) {
-						if ch == row.Seq[j] {
-							cnt++
+					f := tb[j+1]
+					if len(f) != len(chars)+1 || f[0] != strconv.Itoa(j+1) {
+						return fail("line %v", f)
+					}
+					for k := 0; k < len(chars); k++ {
+						cnt := 0
+						for _, ch := range col(a, j) {
+							if fold(ch) == chars[k] {
+								cnt++
+							}
+						}
+						want := float64(cnt) + c.Pseudo
+						if c.Norm == 1 {
+							want /= float64(n) + float64(len(chars))*c.Pseudo
+						}
+						if c.Log {
+							want = math.Log2(want)
+						}
+						got, e := parseF(f[k+1])
+						if e != nil || !closeTo(got, want, 0.0005) {
+							return fail("line %v, %c: %v expected", f, chars[k], want)
 						}
 					}
-					if cnt == 1 && row.Seq[j] == '-' {
-						gu++
-					} else if cnt == 1 && isSpecial(a.Alphabet, row.Seq[j]) {
-						muO++
-					} else if cnt == 1 && row.Seq[j] != w {
-						mu++
+				}
+				o.NonTrivial = o.NonTrivial || n > 1
+			case "diff-counts":
+				if n == 1 {
+					break
+				}
+				union := map[string]bool{}
+				per := make([]map[string]int, n)
+				for i2 := 1; i2 < n; i2++ {
+					per[i2] = map[string]int{}
+					for k := 0; k < l; k++ {
+						x, y := a.Rows[0].Seq[k], a.Rows[i2].Seq[k]
+						if x != y && !(c.NoGaps && (x == '-' || y == '-')) {
+							key := string([]byte{x, y})
+							per[i2][key]++
+							union[key] = true
+						}
 					}
 				}
-				geti := func(h string) int { v, _ := strconv.Atoi(f[idx[h]]); return v }
-				okN, n1 := numAdmissible(a.Alphabet, row.Seq, ref, geti("mutref"))
-				gaps := strings.Count(row.Seq, "-")
-				if geti("gaps") != gaps || geti("gapsuniques") != gu || geti("mutuniques") < mu || geti("mutuniques") > mu+muO || !okN || geti("length") != l-gaps {
-					return fail("line %v: gaps %d gapsuniques %d mutuniques %d mutref %d length %d expected", f, gaps, gu, mu, n1, l-gaps)
+				var ks []string
+				for k := range union {
+					ks = append(ks, k)
 				}
-				wc := naiveCounts([]byte(row.Seq))
-				for ch, v := range foldedCounts(a) {
-					_ = v
-					k, ok := idx[string(ch)]
-					if !ok || geti(string(ch)) != wc[ch] || k < 0 {
-						return fail("line %v: column %c: %d expected", f, ch, wc[ch])
+				sort.Strings(ks)
+				if len(tb) != n {
+					return fail("header and %d lines expected", n-1)
+				}
+				hdr := tb[0]
+				if len(hdr) > 0 && hdr[0] == "" {
+					hdr = hdr[1:]
+				}
+				if strings.Join(hdr, " ") != strings.Join(ks, " ") {
+					return fail("header %v, the differences are %v", hdr, ks)
+				}
+				for i2 := 1; i2 < n; i2++ {
+					f := tb[i2]
+					if len(f) != len(ks)+1 || f[0] != a.Rows[i2].Name {
+						return fail("line %v", f)
+					}
+					for k, key := range ks {
+						if nb, _ := strconv.Atoi(f[k+1]); nb != per[i2][key] {
+							return fail("line %v: %s occurs %d times", f, key, per[i2][key])
+						}
 					}
 				}
-				if mu > 0 || n1 > 0 {
-					o.NonTrivial = true
+				o.NonTrivial = o.NonTrivial || len(ks) > 0
+			case "alleles":
+				_, _, rA, rB, rC := variableAndAlleles(a)
+				got, e := parseF(strings.TrimSpace(strings.Join(tb[0], "\t")))
+				if e != nil || (!eqF(got, rA, 1e-9) && !eqF(got, rB, 1e-9) && !eqF(got, rC, 1e-9)) {
+					return fail("average number of alleles %v expected", rA)
+				}
+				o.NonTrivial = o.NonTrivial || rA > 1
+			case "per-sequences":
+				if len(tb) != n+1 {
+					return fail("header and %d lines expected", n)
+				}
+				idx := map[string]int{}
+				for k, h := range tb[0] {
+					idx[h] = k
+				}
+				for _, h := range []string{"sequence", "gaps", "gapsuniques", "mutuniques", "mutref", "length"} {
+					if _, ok := idx[h]; !ok {
+						return fail("column %s missing in %v", h, tb[0])
+					}
+				}
+				for i2, row := range a.Rows {
+					f := tb[i2+1]
+					if len(f) != len(tb[0]) || f[idx["sequence"]] != row.Name {
+						return fail("line %v", f)
+					}
+					gu, mu, muO := 0, 0, 0
+					for j := 0; j < l; j++ {
+						cnt := 0
+						for _, ch := range col(a, j) {
+							if ch == row.Seq[j] {
+								cnt++
+							}
+						}
+						if cnt == 1 && row.Seq[j] == '-' {
+							gu++
+						} else if cnt == 1 && isSpecial(a.Alphabet, row.Seq[j]) {
+							muO++
+						} else if cnt == 1 && row.Seq[j] != w {
+							mu++
+						}
+					}
+					geti := func(h string) int { v, _ := strconv.Atoi(f[idx[h]]); return v }
+					okN, n1 := numAdmissible(a.Alphabet, row.Seq, ref, geti("mutref"))
+					gaps := strings.Count(row.Seq, "-")
+					if geti("gaps") != gaps || geti("gapsuniques") != gu || geti("mutuniques") < mu || geti("mutuniques") > mu+muO || !okN || geti("length") != l-gaps {
+						return fail("line %v: gaps %d gapsuniques %d mutuniques %d mutref %d length %d expected", f, gaps, gu, mu, n1, l-gaps)
+					}
+					wc := naiveCounts([]byte(row.Seq))
+					for ch, v := range foldedCounts(a) {
+						_ = v
+						k, ok := idx[string(ch)]
+						if !ok || geti(string(ch)) != wc[ch] || k < 0 {
+							return fail("line %v: column %c: %d expected", f, ch, wc[ch])
+						}
+					}
+					if mu > 0 || n1 > 0 {
+						o.NonTrivial = true
+					}
 				}
 			}
+		}
+		if pos != len(all) {
+			return fail("%d lines of output are left after the %d alignments of the file", len(all)-pos, len(alis))
 		}
 		return o, nil
 	})
+}
+
+func allRows(alis []gen.Ali) []gen.Row {
+	var out []gen.Row
+	for _, a := range alis {
+		out = append(out, a.Rows...)
+	}
+	return out
 }
 
 func trunc(s string) string {
